@@ -591,7 +591,7 @@ def main(ctx):
             yield (c, r, d, "ring-vs-ring", 0, nbear)
             yield (c, r, d, "centre-vs-outside", 0, nbear)
 
-    ctx.lattice("rings", ring_units, one_ring, expand=expand_ring,
+    ctx.lattice("rings", ring_units, one_ring, envstrict=True, expand=expand_ring,
                 bounds=dict(centres=ring_centres, radii=ring_radii, depths=ring_depths, bearings=nbear,
                             ring_separations="0 (identical), r/2, 0.9r, r-2e-9, r+2e-9, 1.01r, 2r; radius 0: 0, 2e-9, 2e-7, 1e-4",
                             maxmatch=[0, 1, 3],
@@ -641,7 +641,7 @@ def main(ctx):
                     yield (seq, d, 2, True)
                     yield (seq, d, 0, False)
 
-    ctx.lattice("element-sequences", seq_units, one_seq, expand=expand_seq,
+    ctx.lattice("element-sequences", seq_units, one_seq, envstrict=True, expand=expand_seq,
                 bounds=dict(max_len=SEQ_L, positions=["A", "A (exact repeat)", "B 0.3 deg from A", "C far away"],
                             radii=list(SEQ_RAD), second_set=len(SEQ_SECOND), maxmatch=[0, 1, 2],
                             routes=["HTM.match", "Matcher.match", "Matcher.match(file=)"]))
@@ -683,7 +683,7 @@ def main(ctx):
 
     eunits = [(r, d, mm, half) for r in (0.0, 1e-6, 1e-5, 5e-5) for d in ctx.pick((10, 12, 13), (9, 10, 11, 12, 13, 14))
               for mm in (0, 1) for half in ("all", "even")]
-    ctx.lattice("near-deep-edges", eunits, one_edge, bounds=dict(points=len(NEP), offsets_rad=[5e-8, 2e-7, 1e-6], radii=[0.0, 1e-6, 1e-5, 5e-5]))
+    ctx.lattice("near-deep-edges", eunits, one_edge, envstrict=True, bounds=dict(points=len(NEP), offsets_rad=[5e-8, 2e-7, 1e-6], radii=[0.0, 1e-6, 1e-5, 5e-5]))
 
     # ------------------------------------------------------------------- sets
     def one_set(case, rec):
@@ -759,7 +759,7 @@ def main(ctx):
             for mm in MAXMATCH:
                 yield (gen, s1, s2, v, radspec, d, mm)
 
-    ctx.lattice("sets", set_units, one_set, expand=expand_set,
+    ctx.lattice("sets", set_units, one_set, envstrict=True, expand=expand_set,
                 bounds=dict(points_in_S=len(S), set_pairs=["%s x %s (%s)" % p for p in set_pairs],
                             radii=RADII, per_point_radii="cycle over the affordable radii of the depth",
                             depths=set_depths, maxmatch=MAXMATCH, routes=ROUTES,
